@@ -263,12 +263,20 @@ func init() {
 		mc := mcRun{"MC_AutogradSlices", 3, 1, true, true}
 		dump := mcRun{"MC_AutogradSlices", 3, 1, false, true}
 		if c.Thorough {
+			// 4 tensors: 39.2 M distinct states / 296 M transitions, 28 min with 16 workers (measured); its transition
+			// relation cannot be dumped, so the larger histories are bound by simulation instead
 			mc = mcRun{"MC_AutogradSlices", 4, 1, true, true}
-			dump = mcRun{"MC_AutogradSlices", 4, 1, false, true}
 		}
-		if err := modelCheck(c, mc, 40*time.Minute); err != nil {
+		if err := modelCheck(c, mc, 60*time.Minute); err != nil {
 			return err
 		}
-		return dumpAndReplay(c, dump, 40*time.Minute)
+		if err := dumpAndReplay(c, dump, 40*time.Minute); err != nil {
+			return err
+		}
+		sims, depth := 40, 30
+		if c.Thorough {
+			sims, depth = 3000, 50
+		}
+		return simulateAndReplay(c, mcRun{"MC_AutogradSlices", 7, 2, true, true}, sims, depth, 30*time.Minute)
 	})
 }
